@@ -275,7 +275,7 @@ func init() {
 			"   lm_sections: critical sections one invocation may enter (2 = more than one: the operation is not atomic). *)\n" +
 			"From Coq Require Import List Strings.String.\nImport ListNotations.\nOpen Scope string_scope.\n\n" +
 			"Record lock_summary : Type := { lm_name : string; lm_exported : bool; lm_locks : bool; lm_touches : list string; lm_calls_locking : list string; lm_spawns : bool; lm_sections : nat }.\n\n" +
-			genLocksFor("message", "/repo", "Message", []string{"fields", "fieldsMap", "cachedBitmap"}) + "\n" +
+			genLocksFor("message", "/repo", "Message", []string{"fields", "fieldsMap", "cachedBitmap", "failedID"}) + "\n" +
 			genLocksFor("composite", "/repo/field", "Composite", []string{"subfields", "setSubfields", "cachedBitmap"})
 	}
 }
